@@ -324,44 +324,31 @@ Proof.
 Qed.
 
 (* Rename succeeded: the node of an open file is untouched unless it was the replaced target *)
+(* walks through the conditionals of a call that returned ROk, outermost first *)
+Ltac walk_ok Hr :=
+  repeat (match type of Hr with
+          | (if ?c then _ else _) = _ => destruct c eqn:?
+          | (match ?x with _ => _ end) = _ => destruct x eqn:?
+          end; try discriminate).
+
 Lemma rename_effect s v o n s' c d k i m :
   rename s v o n = (s', ROk) -> get (f_heap s) c = Some (NFile d k i m) ->
   get (f_heap s') c = Some (NFile d k i m)
   \/ get (f_heap s') c = Some (NFile (if Z.eqb (k - 1) 0 then [] else d) (k - 1) i m).
 Proof.
-  intros Hr Hc. unfold rename in Hr.
-  destruct (negb (is_file_exists (sr_err (search_node s v o SlLstat)))); [discriminate|].
-  destruct (_ && _); [discriminate|].
-  destruct (_ && _); [discriminate|].
-  destruct (sr_parent (search_node s v o SlLstat)) as [op|]; [|discriminate].
-  destruct (sr_child (search_node s v o SlLstat)) as [oc|]; [|discriminate].
-  destruct (sr_parent (search_node s v n SlLstat)) as [np|]; [|discriminate].
-  destruct (negb (perm_on _ _ _ _)); [discriminate|].
-  destruct (_ && _); [discriminate|].
-  assert (Hmove : forall h0 a b, get h0 c = Some (NFile d k i m) ->
+  intros Hr Hc.
+  assert (Hmove : forall h0 np oc op a b, get h0 c = Some (NFile d k i m) ->
             get (remove_child (add_child h0 np a oc) op b) c = Some (NFile d k i m)).
   { intros. apply remove_child_file. now apply add_child_file. }
-  assert (Hdel : forall nc a b,
+  assert (Hdel : forall nc np oc op a b,
             get (remove_child (add_child (delete_node (f_heap s) nc) np a oc) op b) c = Some (NFile d k i m)
             \/ get (remove_child (add_child (delete_node (f_heap s) nc) np a oc) op b) c
                = Some (NFile (if Z.eqb (k - 1) 0 then [] else d) (k - 1) i m)).
-  { intros nc a b. destruct (Nat.eq_dec c nc) as [<-|Hne].
+  { intros nc np oc op a b. destruct (Nat.eq_dec c nc) as [<-|Hne].
     - right. apply remove_child_file, add_child_file. now apply delete_node_file.
     - left. apply Hmove. now rewrite delete_node_other. }
-  destruct (get (f_heap s) oc) as [[ch mm|dd kk ii mm|ll mm]|].
-  - destruct (negb (is_not_exist _)); [discriminate|]. destruct (_ || _); [discriminate|].
-    inversion Hr; subst; cbn [f_heap with_heap]. left; now apply Hmove.
-  - destruct (_ || _); [inversion Hr; subst; auto|].
-    destruct (sr_child (search_node s v n SlLstat)) as [nc|].
-    + destruct (get (f_heap s) nc) as [[ch' mm'|dd' kk' ii' mm'|ll' mm']|]; try discriminate;
-        inversion Hr; subst; cbn [f_heap with_heap]; apply Hdel.
-    + inversion Hr; subst; cbn [f_heap with_heap]. left; now apply Hmove.
-  - destruct (_ || _); [inversion Hr; subst; auto|].
-    destruct (sr_child (search_node s v n SlLstat)) as [nc|].
-    + destruct (get (f_heap s) nc) as [[ch' mm'|dd' kk' ii' mm'|ll' mm']|]; try discriminate;
-        inversion Hr; subst; cbn [f_heap with_heap]; apply Hdel.
-    + inversion Hr; subst; cbn [f_heap with_heap]. left; now apply Hmove.
-  - inversion Hr; subst; cbn [f_heap with_heap]. left; now apply Hmove.
+  unfold rename in Hr. cbv zeta in Hr. walk_ok Hr.
+  all: inversion Hr; subst; cbn [f_heap with_heap]; first [left; assumption | left; now apply Hmove | apply Hdel].
 Qed.
 
 (* ---- C02_dir_batches ------------------------------------------------------------------ *)
@@ -584,18 +571,27 @@ Qed.
 Definition open_mode_bits_ok (flag : N) : bool :=
   Bool.eqb (has (to_open_mode flag) OpenCreateExcl) (fbit flag FO_CREATE && fbit flag FO_EXCL)
   && Bool.eqb (has (to_open_mode flag) OpenTruncate) (fbit flag FO_TRUNC)
-  && Bool.eqb (has (to_open_mode flag) OpenAppend) (fbit flag FO_APPEND).
+  && Bool.eqb (has (to_open_mode flag) OpenAppend) (fbit flag FO_APPEND)
+  && match access_of flag with
+     | Some a => Bool.eqb (has (to_open_mode flag) OpenRead) (can_read a)
+                 && Bool.eqb (has (to_open_mode flag) OpenWrite) (can_write a)
+     | None => true
+     end.
 
 Lemma open_mode_bits : forall flag, (flag < 4096)%N ->
   has (to_open_mode flag) OpenCreateExcl = (fbit flag FO_CREATE && fbit flag FO_EXCL)
   /\ has (to_open_mode flag) OpenTruncate = fbit flag FO_TRUNC
-  /\ has (to_open_mode flag) OpenAppend = fbit flag FO_APPEND.
+  /\ has (to_open_mode flag) OpenAppend = fbit flag FO_APPEND
+  /\ forall a, access_of flag = Some a ->
+       has (to_open_mode flag) OpenRead = can_read a /\ has (to_open_mode flag) OpenWrite = can_write a.
 Proof.
   intros flag Hlt.
   assert (H : open_mode_bits_ok flag = true).
   { apply (N_lt_forall open_mode_bits_ok 4096); [vm_compute; reflexivity|exact Hlt]. }
-  unfold open_mode_bits_ok in H. rewrite !andb_true_iff in H. destruct H as [[H1 H2] H3].
-  apply eqb_prop in H1, H2, H3. auto.
+  unfold open_mode_bits_ok in H. rewrite !andb_true_iff in H. destruct H as [[[H1 H2] H3] H4].
+  apply eqb_prop in H1, H2, H3. repeat split; auto.
+  - rewrite H in H4. apply andb_true_iff in H4. destruct H4 as [H4 _]. now apply eqb_prop in H4.
+  - rewrite H in H4. apply andb_true_iff in H4. destruct H4 as [_ H4]. now apply eqb_prop in H4.
 Qed.
 
 Definition perm_ok (p : N) : bool :=
@@ -640,30 +636,50 @@ Proof.
   destruct (get h p) as [[ch m|d k i m|l m]|], (get h' p) as [[ch' m'|d' k' i' m'|l' m']|]; cbn in H; try tauto; try reflexivity.
 Qed.
 
-Lemma search_loop_sim h h' v slm : heap_sim h h' ->
-  forall fuel vol parent pi slc saved,
+Lemma node_is_dir_sim h h' p : heap_sim h h' -> node_is_dir h' p = node_is_dir h p.
+Proof.
+  intros H. unfold node_is_dir. specialize (H p).
+  destruct (get h p) as [[ch m|d k i m|l m]|], (get h' p) as [[ch' m'|d' k' i' m'|l' m']|]; cbn in H; tauto.
+Qed.
+
+Lemma search_loop_sim h h' v slm vol : heap_sim h h' -> node_is_dir h vol = true ->
+  forall fuel parent pi slc saved,
     search_loop fuel h v slm vol parent pi slc saved = search_loop fuel h' v slm vol parent pi slc saved.
 Proof.
-  intros Hs. induction fuel as [|fuel IH]; intros; cbn [search_loop]; [reflexivity|].
+  intros Hs Hvol. induction fuel as [|fuel IH]; intros; cbn [search_loop]; [reflexivity|].
   destruct (pi_next (v_os v) pi) as [ok pi1]. destruct ok; cbn [negb]; [|reflexivity].
   rewrite (children_sim parent Hs).
-  destruct (alookup str_eqb (pi_part pi1) (children h' parent)) as [c|]; [|reflexivity].
+  assert (Hroot : (Nat.eqb parent vol && negb (match get h parent with
+                     | Some n => check_permission (node_meta n) OpenLookup (v_user v) | None => false end))
+                = (Nat.eqb parent vol && negb (match get h' parent with
+                     | Some n => check_permission (node_meta n) OpenLookup (v_user v) | None => false end))).
+  { destruct (Nat.eqb_spec parent vol) as [->|Hne]; [|reflexivity]. cbn [andb].
+    pose proof (Hs vol) as Hv. unfold node_is_dir in Hvol.
+    destruct (get h vol) as [[ch m|d k i m|l m]|]; try discriminate.
+    destruct (get h' vol) as [[ch' m'|d' k' i' m'|l' m']|]; cbn in Hv; try tauto.
+    destruct Hv as [_ <-]. reflexivity. }
+  destruct (alookup str_eqb (pi_part pi1) (children h' parent)) as [c|].
+  2:{ now rewrite Hroot. }
   pose proof (Hs c) as Hc.
-  destruct (get h c) as [[ch m|d k i m|l m]|], (get h' c) as [[ch' m'|d' k' i' m'|l' m']|]; cbn in Hc; try tauto.
-  - destruct Hc as [-> ->]. destruct (pi_is_last pi1); [reflexivity|].
+  destruct (get h c) as [[ch m|d k i m|l m]|] eqn:Eg, (get h' c) as [[ch' m'|d' k' i' m'|l' m']|] eqn:Eg';
+    cbn in Hc; try tauto; rewrite <- ?Hroot.
+  - destruct Hc as [-> ->].
+    destruct (_ && _); [reflexivity|]. destruct (pi_is_last pi1); [reflexivity|].
     destruct (check_permission m' OpenLookup (v_user v)); [apply IH|reflexivity].
-  - subst l'. destruct (Nat.ltb slCountMax (S slc)); [reflexivity|].
+  - reflexivity.
+  - subst l'. destruct (_ && _); [reflexivity|]. destruct (Nat.ltb slCountMax (S slc)); [reflexivity|].
     destruct (pi_is_last pi1 && slmode_eqb slm SlLstat); [reflexivity|].
     destruct (pi_replace_part (v_os v) pi1 l) as [reset pi2]. apply IH.
+  - reflexivity.
 Qed.
 
 Lemma search_node_sim s h' v p slm :
-  heap_sim (f_heap s) h' -> search_node (with_heap s h') v p slm = search_node s v p slm.
+  heap_sim (f_heap s) h' -> node_is_dir (f_heap s) (v_root v) = true -> f_vols s = [] ->
+  search_node (with_heap s h') v p slm = search_node s v p slm.
 Proof.
-  intros Hs. unfold search_node. cbn [f_heap f_vols with_heap].
-  destruct (Nat.ltb 0 (pi_vnl _)).
-  - destruct (alookup _ _ _); [|reflexivity]. symmetry. now apply search_loop_sim.
-  - symmetry. now apply search_loop_sim.
+  intros Hs Hroot Hvols. unfold search_node. cbn [f_heap f_vols with_heap]. rewrite Hvols.
+  destruct (Nat.ltb 0 (pi_vnl _)); cbn [alookup]; [reflexivity|].
+  symmetry. now apply search_loop_sim.
 Qed.
 
 (* ---- list updates --------------------------------------------------------------------- *)
@@ -738,6 +754,8 @@ Section Refine.
 
   Record Rel' (s : fsys) (vs : list view) (hs : list handle) (st : fstate) : Prop := {
     R_view : exists v, nth_error vs 0 = Some v /\ good_view v;
+    R_root : forall v, nth_error vs 0 = Some v -> node_is_dir (f_heap s) (v_root v) = true;
+    R_vols : f_vols s = [];
     R_inodes : forall i ino, nth_error (st_inodes st) i = Some ino ->
        (i_perm ino < 512)%N /\
        exists id, get (f_heap s) (ptr i) = Some (NFile (i_bytes ino) (i_nlink ino) id (meta_of ino));
@@ -758,10 +776,15 @@ Section Refine.
     Rel' (with_heap s (upd (f_heap s) (ptr i) (NFile (i_bytes ino') (i_nlink ino') id (meta_of ino')))) vs hs
          (with_inode st i ino').
   Proof.
-    intros [Hv Hi Hj Hn Hf] Hino Hget Hperm.
+    intros [Hv Hroot Hvols Hi Hj Hn Hf] Hino Hget Hperm.
     assert (Hlt : (i < length (st_inodes st))%nat) by (apply nth_error_Some; congruence).
-    constructor; cbn [with_inode st_inodes st_names st_fds with_heap f_heap]; rewrite ?set_nth_length.
+    assert (Hsim : heap_sim (f_heap s)
+                     (upd (f_heap s) (ptr i) (NFile (i_bytes ino') (i_nlink ino') id (meta_of ino'))))
+      by (eapply heap_sim_upd_file; exact Hget).
+    constructor; cbn [with_inode st_inodes st_names st_fds with_heap f_heap f_vols]; rewrite ?set_nth_length.
     - exact Hv.
+    - intros v Hv0. rewrite (node_is_dir_sim _ Hsim). now apply Hroot.
+    - exact Hvols.
     - intros j inoj Hnj. destruct (Nat.eq_dec i j) as [<-|Hne].
       + rewrite nth_set_nth_eq in Hnj by auto. inversion Hnj; subst inoj. split; auto.
         exists id. apply get_upd_same. eapply get_some_lt; eauto.
@@ -771,8 +794,8 @@ Section Refine.
     - exact Hj.
     - intros v name j Hv0 Hl. unfold lookup_name in *. cbn [st_names] in *.
       destruct (Hn v name j Hv0 Hl) as [Hlj Hres]. split; [exact Hlj|].
-      destruct Hres as [Hres]. constructor. intros slm. rewrite search_node_sim; [apply Hres|].
-      eapply heap_sim_upd_file; exact Hget.
+      destruct Hres as [Hres]. constructor. intros slm. rewrite search_node_sim; [apply Hres|exact Hsim| |exact Hvols].
+      now apply Hroot.
     - exact Hf.
   Qed.
 
@@ -789,14 +812,14 @@ Section Refine.
     intros HR Hino Hget.
     pose proof (@Rel_upd_inode s vs hs st i ino ino id HR Hino Hget) as H.
     rewrite (with_inode_same st i Hino) in H. apply H.
-    destruct HR as [_ Hi _ _ _]. now destruct (Hi _ _ Hino).
+    destruct HR as [_ _ _ Hi _ _ _]. now destruct (Hi _ _ Hino).
   Qed.
 
   Lemma Rel_set_fd s vs hs st fd f o :
     Rel' s vs hs st -> rel_fd (length (st_inodes st)) f o ->
     Rel' s vs (set_nth_ hs fd f) (with_fd st fd o).
   Proof.
-    intros [Hv Hi Hj Hn Hf] Hrel.
+    intros [Hv Hroot Hvols Hi Hj Hn Hf] Hrel.
     constructor; cbn [with_fd st_inodes st_names st_fds]; try assumption.
     now apply Forall2_set_nth.
   Qed.
@@ -821,7 +844,7 @@ Section Refine.
     exists f v, nth_error hs fd = Some f /\ nth_error vs (hd_view f) = Some v /\ good_view v
                 /\ rel_fd (length (st_inodes st)) f o.
   Proof.
-    intros [Hv Hi Hj Hn Hf] Ho.
+    intros [Hv Hroot Hvols Hi Hj Hn Hf] Ho.
     destruct (Forall2_nth fd Hf Ho) as (f & Hfn & Hrel).
     destruct Hv as (v & Hv0 & Hgood).
     exists f, v. destruct Hgood as [Hadm Hos].
@@ -831,7 +854,7 @@ Section Refine.
 
   Lemma Rel_no_fd s vs hs st fd :
     Rel' s vs hs st -> nth_error (st_fds st) fd = None -> nth_error hs fd = None.
-  Proof. intros [Hv Hi Hj Hn Hf] Ho. eapply Forall2_nth_none; eauto. Qed.
+  Proof. intros [Hv Hroot Hvols Hi Hj Hn Hf] Ho. eapply Forall2_nth_none; eauto. Qed.
 End Refine.
 
 (* ---- the domain of the refinement theorem ------------------------------------------------- *)
@@ -1258,6 +1281,7 @@ Section StepRefine.
     - cbn. split; auto; same_world.
     - destruct (Hres SlEval) as (He & Hc & _). rewrite He, Hc. cbn [is_file_exists negb]. rewrite Hget, Eino.
       destruct (Z.ltb_spec size 0); [lia|].
+      destruct Hg as [Hadm Hos]. unfold check_permission. rewrite Hadm. cbn [negb].
       cbn [fst snd fproj_res]. split; [reflexivity|]. rewrite truncate_data_resize by lia.
       unfold Rel. cbn [with_fs w_fs w_views w_handles].
       apply Rel_upd_inode with (ino := ino) (ino' := set_bytes ino (resize (i_bytes ino) (Z.to_nat size))); assumption.
@@ -1267,7 +1291,7 @@ Section StepRefine.
     Rel' ptr s vs hs st0 -> rel_fd ptr (length (st_inodes st0)) f o ->
     Rel' ptr s vs (hs ++ [f]) {| st_inodes := st_inodes st0; st_names := st_names st0; st_fds := st_fds st0 ++ [o] |}.
   Proof.
-    intros [Hv Hi Hj Hn Hf] Hrel. constructor; cbn [st_inodes st_names st_fds]; try assumption.
+    intros [Hv Hroot Hvols Hi Hj Hn Hf] Hrel. constructor; cbn [st_inodes st_names st_fds]; try assumption.
     apply Forall2_app; auto.
   Qed.
 
@@ -1281,7 +1305,8 @@ Section StepRefine.
     intros Hsc Hkf. unfold in_scope in Hsc.
     destruct (lookup_name st name) as [i|] eqn:El; [|discriminate].
     destruct (access_of flag) as [acc|] eqn:Eacc; [|discriminate].
-    apply N.ltb_lt in Hsc. destruct (open_mode_bits Hsc) as (Bx & Bt & Ba).
+    apply N.ltb_lt in Hsc. destruct (open_mode_bits Hsc) as (Bx & Bt & Ba & Bacc).
+    destruct (Bacc acc Eacc) as [Cr Cw].
     destruct (name_inode name i El) as (v & ino & idn & Hv & Hg & Eino & Hperm & Hget & Hlt & Hres).
     unfold step_ok. unfold kf02 in Hkf. rewrite Eacc in Hkf.
     cbn [impl_call wstep]. unfold on_view. rewrite Hv.
@@ -1305,8 +1330,6 @@ Section StepRefine.
       rewrite nth_error_app2, Nat.sub_diag in Hkf by lia. cbn [nth_error o_ino] in Hkf.
       rewrite nth_set_nth_eq in Hkf by auto. cbn [set_bytes i_bytes length Nat.eqb negb andb] in Hkf.
       rewrite andb_false_r in Hkf.
-      destruct (caps_agree (to_open_mode flag) acc) eqn:Ecaps; [|discriminate].
-      unfold caps_agree in Ecaps. apply andb_true_iff in Ecaps. destruct Ecaps as [Cr Cw]. apply eqb_prop in Cr, Cw.
       unfold Rel. cbn [w_fs w_views w_handles].
       apply (Rel_add_fd _ _ _ (with_inode st i (set_bytes ino []))).
       + apply Rel_upd_inode with (ino := ino) (ino' := set_bytes ino []); assumption.
@@ -1316,8 +1339,6 @@ Section StepRefine.
     - cbn [fst snd st_inodes st_names st_fds fproj_res] in *. rewrite Hlen. split; [reflexivity|].
       unfold fd_get in Hkf. cbn [st_fds st_inodes] in Hkf.
       rewrite nth_error_app2, Nat.sub_diag in Hkf by lia. cbn [nth_error o_ino] in Hkf. rewrite Eino in Hkf.
-      destruct (caps_agree (to_open_mode flag) acc) eqn:Ecaps; [|discriminate]. cbn [negb] in Hkf.
-      unfold caps_agree in Ecaps. apply andb_true_iff in Ecaps. destruct Ecaps as [Cr Cw]. apply eqb_prop in Cr, Cw.
       cbn [o_app] in Hkf.
       unfold Rel. cbn [w_fs w_views w_handles].
       apply (Rel_add_fd _ _ _ st).
@@ -1329,3 +1350,52 @@ Section StepRefine.
         rewrite H0. reflexivity.
   Qed.
 End StepRefine.
+
+(* ---- the step theorem and its lifting to histories ------------------------------------------ *)
+Theorem refine_step ptr w st op :
+  Rel ptr w st -> in_scope st op = true -> kf02 st op = None ->
+  fproj_res (snd (wstep w (impl_call op))) = snd (fspec_step st op)
+  /\ Rel ptr (fst (wstep w (impl_call op))) (fst (fspec_step st op)).
+Proof.
+  intros HR Hsc Hkf. destruct op; try discriminate Hsc.
+  - now apply step_open.
+  - now apply step_read.
+  - now apply step_read_at.
+  - now apply step_write.
+  - now apply step_write_string.
+  - now apply step_write_at.
+  - now apply step_seek.
+  - now apply step_ftruncate.
+  - now apply step_fstat.
+  - now apply step_fsync.
+  - apply step_fchmod; auto. now apply N.ltb_lt.
+  - now apply step_fchown.
+  - now apply step_fchdir.
+  - now apply step_close.
+  - now apply step_ptruncate.
+Qed.
+
+(* every step of the history is in the domain and is not classified as a known deviation *)
+Fixpoint clean_history (st : fstate) (ops : list fop) : bool :=
+  match ops with
+  | [] => true
+  | op :: ops' =>
+      in_scope st op && match kf02 st op with None => true | Some _ => false end
+      && clean_history (fst (fspec_step st op)) ops'
+  end.
+
+Theorem refine_history ptr : forall ops w st,
+  Rel ptr w st -> clean_history st ops = true ->
+  map fproj_res (snd (wrun w (map impl_call ops))) = snd (fspec_run st ops)
+  /\ Rel ptr (fst (wrun w (map impl_call ops))) (fst (fspec_run st ops)).
+Proof.
+  induction ops as [|op ops IH]; intros w st HR Hc; cbn [map wrun fspec_run]; [cbn; auto|].
+  cbn [clean_history] in Hc. rewrite !andb_true_iff in Hc. destruct Hc as [[Hsc Hkf] Hrest].
+  destruct (kf02 st op) eqn:Ek; [discriminate|].
+  destruct (refine_step ptr w st op HR Hsc Ek) as [Hres HR'].
+  destruct (wstep w (impl_call op)) as [w1 r]. destruct (fspec_step st op) as [st1 r'].
+  cbn [fst snd] in *.
+  destruct (IH w1 st1 HR' Hrest) as [Hrs HR2].
+  destruct (wrun w1 (map impl_call ops)) as [w2 rs]. destruct (fspec_run st1 ops) as [st2 rs'].
+  cbn [fst snd map] in *. split; [congruence|assumption].
+Qed.
